@@ -315,6 +315,20 @@ fn brace_group_after(ts: TokenStream, anchor: &str) -> Option<Block> {
     None
 }
 
+/// second documented rewrite: when a slice that contains `.await` is emitted with a NON-async
+/// signature, `expr.await` becomes `expr` (the stand-ins it awaits are plain functions that return
+/// the value an always-ready future would yield; single-task semantics, no interleaving claim)
+struct AwaitStripper;
+impl VisitMut for AwaitStripper {
+    fn visit_expr_mut(&mut self, e: &mut Expr) {
+        visit_mut::visit_expr_mut(self, e);
+        if let Expr::Await(a) = e {
+            let base = (*a.base).clone();
+            *e = base;
+        }
+    }
+}
+
 struct StmtFinder<'a> {
     start: String,
     nth: usize,
@@ -672,7 +686,7 @@ fn main() {
             }
             "stmts" | "stmts1" => {
                 let parts: Vec<&str> = rest.split(";;").map(|s| s.trim()).collect();
-                if parts.len() != 4 && !(kw == "stmts1" && parts.len() == 5) {
+                if parts.len() != 4 && !(kw == "stmts1" && (parts.len() == 5 || parts.len() == 6)) {
                     die(&format!("{ctx}: stmts needs 4 `;;`-separated parts (stmts1: optional 5th = return expression)"));
                 }
                 let block = find_fn_block(src, parts[0]);
@@ -696,14 +710,24 @@ fn main() {
                     let ret: Option<Expr> = parts.get(4).map(|r| {
                         syn::parse_str(r).unwrap_or_else(|e| die(&format!("{ctx}: bad return expression: {e}")))
                     });
-                    let with: Expr = match &ret {
-                        Some(r) => syn::parse_quote!(return #r),
-                        None => syn::parse_quote!(return),
+                    // optional 6th part: the value returned where the source `continue`s (default: ret)
+                    let cont_val: Option<Expr> = parts.get(5).map(|r| {
+                        syn::parse_str(r).unwrap_or_else(|e| die(&format!("{ctx}: bad continue value: {e}")))
+                    });
+                    let with: Expr = match (&cont_val, &ret) {
+                        (Some(c), _) => syn::parse_quote!(return #c),
+                        (None, Some(r)) => syn::parse_quote!(return #r),
+                        (None, None) => syn::parse_quote!(return),
                     };
                     let bare_return: Option<Expr> = ret.as_ref().map(|r| syn::parse_quote!(return #r));
                     let mut rw = ContinueRewriter { depth: 0, with, bare_return, closure_depth: 0 };
                     for s in stmts.iter_mut() {
                         rw.visit_stmt_mut(s);
+                    }
+                    if sig.asyncness.is_none() {
+                        for s in stmts.iter_mut() {
+                            AwaitStripper.visit_stmt_mut(s);
+                        }
                     }
                     match &ret {
                         Some(r) => syn::parse2(quote!(pub #sig { #(#stmts)* #r })).unwrap(),
